@@ -66,6 +66,10 @@ func (e *Engine) StructuralObligations(prop string) []*Obligation {
 				allowed = append(allowed, qualify(a, sd.Pkg))
 			}
 			ok, detail = e.checkClosureOnly(qualify(sd.Args[0], sd.Pkg), allowed)
+		case "recovers-errors":
+			ok, detail = e.checkRecoversErrors(qualify(sd.Args[0], sd.Pkg))
+		case "passed-only":
+			ok, detail = e.checkPassedOnly(qualify(sd.Args[0], sd.Pkg), sd.Args[1])
 		default:
 			detail = "unknown structural declaration"
 		}
@@ -214,4 +218,130 @@ func sourceFieldName(v ssa.Value) string {
 		}
 	}
 	return ""
+}
+
+// checkRecoversErrors: F defers (entry block, before any call) a function R whose entry block calls recover() and whose
+// only panic re-raises the recovered value on the failed branch of a comma-ok assertion to error. So every panic with an
+// error value (runtime errors included) that escapes F's body becomes F's returned error; any other value propagates.
+func (e *Engine) checkRecoversErrors(key string) (bool, string) {
+	fn := e.FuncByKey(key)
+	if fn == nil || fn.Blocks == nil {
+		return false, "function not found"
+	}
+	for _, in := range fn.Blocks[0].Instrs {
+		switch x := in.(type) {
+		case *ssa.Defer:
+			r, ok := x.Call.Value.(*ssa.Function)
+			if !ok || r.Blocks == nil {
+				continue
+			}
+			var rec ssa.Value
+			for _, ci := range r.Blocks[0].Instrs {
+				if c, ok := ci.(*ssa.Call); ok {
+					if b, ok := c.Call.Value.(*ssa.Builtin); ok && b.Name() == "recover" {
+						rec = c
+					}
+				}
+			}
+			if rec == nil {
+				continue
+			}
+			if len(x.Call.Args) != 1 {
+				return false, "the deferred recovering function does not take the error pointer"
+			}
+			if al, ok := x.Call.Args[0].(*ssa.Alloc); !ok || al.Comment != "err" && !isNamedResult(fn, al) {
+				return false, "the deferred recovering function is not handed the address of the named error result"
+			}
+			stores := 0
+			for _, b := range r.Blocks {
+				for _, ci := range b.Instrs {
+					switch y := ci.(type) {
+					case *ssa.Panic:
+						if y.X != rec {
+							return false, "the recovering function panics with something other than the recovered value"
+						}
+						if len(b.Preds) != 1 {
+							return false, "re-panic block has several predecessors"
+						}
+						pred := b.Preds[0]
+						iff, ok := pred.Instrs[len(pred.Instrs)-1].(*ssa.If)
+						if !ok || pred.Succs[1] != b {
+							return false, "re-panic is not the failed branch of a test"
+						}
+						ex, ok := iff.Cond.(*ssa.Extract)
+						if !ok || ex.Index != 1 {
+							return false, "re-panic is not guarded by a comma-ok type assertion"
+						}
+						ta, ok := ex.Tuple.(*ssa.TypeAssert)
+						if !ok || !ta.CommaOk || ta.X != rec || !types.Identical(ta.AssertedType, types.Universe.Lookup("error").Type()) {
+							return false, "re-panic is not guarded by r.(error)"
+						}
+					case *ssa.Store:
+						if y.Addr == ssa.Value(r.Params[0]) {
+							stores++
+						}
+					}
+				}
+			}
+			if stores == 0 {
+				return false, "the recovering function never stores the recovered error"
+			}
+			if fn.Recover == nil {
+				return false, "no recover block"
+			}
+			return true, "entry block defers " + shortKey(FuncKey(r)) + ", which recovers, stores error values into the result and re-panics only non-error values"
+		case *ssa.Call, *ssa.Go:
+			return false, "a call precedes the deferred recover in the entry block"
+		}
+	}
+	return false, "no deferred recovering function in the entry block"
+}
+
+func isNamedResult(fn *ssa.Function, al *ssa.Alloc) bool {
+	res := fn.Signature.Results()
+	for i := 0; i < res.Len(); i++ {
+		if res.At(i).Name() != "" && res.At(i).Name() == al.Comment {
+			return true
+		}
+	}
+	return false
+}
+
+// checkPassedOnly: closure A is created exactly once and every use of the closure value is as an argument of a direct
+// call of the function named callee (matched on the short name).
+func (e *Engine) checkPassedOnly(key, callee string) (bool, string) {
+	fn := e.FuncByKey(key)
+	if fn == nil || fn.Parent() == nil {
+		return false, "closure not found"
+	}
+	parent := fn.Parent()
+	var makers []*ssa.MakeClosure
+	for _, b := range parent.Blocks {
+		for _, in := range b.Instrs {
+			if mc, ok := in.(*ssa.MakeClosure); ok && mc.Fn == ssa.Value(fn) {
+				makers = append(makers, mc)
+			}
+		}
+	}
+	if len(makers) != 1 {
+		return false, fmt.Sprintf("expected one MakeClosure in %s, found %d", shortKey(FuncKey(parent)), len(makers))
+	}
+	uses := 0
+	for _, ref := range *makers[0].Referrers() {
+		switch r := ref.(type) {
+		case *ssa.DebugRef:
+		case *ssa.Call:
+			sf, ok := r.Call.Value.(*ssa.Function)
+			if !ok || !matchCallee(callee, FuncKey(sf)) {
+				return false, "closure passed to or called as something other than " + callee
+			}
+			uses++
+		default:
+			return false, fmt.Sprintf("closure value escapes through %T", ref)
+		}
+	}
+	if uses == 0 {
+		return false, "closure is never passed to " + callee
+	}
+	return true, "only use: argument of " + callee
 }
